@@ -13,8 +13,8 @@ EXPLANATION = (
     "derivative on the stated box; cos/sin of eps enter through rational enclosures, sqrt(1 - eps^2) through its contract); "
     "and the gradient/Hessian contributions are e^T Omega J_i and J_i^T Omega J_j for every vertex pair i <= j of the n-ary edge."
 )
-BOUNDS = "5 error-function families x 4 pose types; box |coordinates| <= 10 for the bounded (non-exact) families"
-OUTSIDE = "NOT decided: the truncation bound of the relative-pose family for the entries d(translation rows)/d(rotation of the reference vertex) (degree-3 inequality with trig/sqrt enclosures: both z3 versions answer unknown within 10 minutes); NOT decided: 'graphs built from such edges converge to the same optimum as with exact Jacobians' (multi-iteration numerical convergence, same obstacle as C05); floating-point cancellation error 2u|e|/eps of the difference quotient"
+BOUNDS = "7 error-function families (incl. one in arbitrarily small units and one whose error aliases the pose object) x 4 pose types; box |coordinates| <= 10 for the bounded (non-exact) families"
+OUTSIDE = "NOT decided: truncation bounds for rotational increments of the SE(3) relative-pose family (only its translation increments, where the forward difference is exact, are checked); NOT decided: the truncation bound of the relative-pose family for the entries d(translation rows)/d(rotation of the reference vertex) (degree-3 inequality with trig/sqrt enclosures: both z3 versions answer unknown within 10 minutes); NOT decided: 'graphs built from such edges converge to the same optimum as with exact Jacobians' (multi-iteration numerical convergence, same obstacle as C05); floating-point cancellation error 2u|e|/eps of the difference quotient"
 ASSUMPTIONS = ["dual-number derivative semantics (validated against central differences)", "unit quaternions", "rational enclosures of cos(1e-6), sin(1e-6)", "sqrt contract"]
 
 EPS = 1e-6
@@ -37,6 +37,25 @@ def family(P, g, name):
                 return np.array([b[i] - a[i] - self.estimate[i] for i in range(len(self.estimate))])
 
         return E, 2, "exact"
+    if name == "scaledrelpos":
+
+        class E(Base):
+            """relative position in small units: the error (and its derivative) is scaled by an arbitrary s > 0"""
+
+            def calc_error(self):
+                a, b = self.vertices[0].pose.position, self.vertices[1].pose.position
+                return np.array([self.scale * (b[i] - a[i] - self.estimate[i]) for i in range(len(self.estimate))])
+
+        return E, 2, "exact"
+    if name == "aliasprior":
+
+        class E(Base):
+            """zero-mean prior whose error IS the vertex' pose object (no copy): the fallback must not be fooled by aliasing"""
+
+            def calc_error(self):
+                return self.vertices[0].pose
+
+        return E, 1, "exact"
     if name == "prior":
 
         class E(Base):
@@ -106,11 +125,18 @@ def _case(fam, kind, deep=False):
         elif fam == "relpose":
             est = P.vector("z", COMPACT[kind])
             m = COMPACT[kind]
+        elif fam == "aliasprior":
+            est = None
+            m = len(verts[0].pose.to_array())
         else:
             est = P.vector("z", npos)
             m = npos
         om = P.sym_matrix("om", m, psd=True)
         e = E(list(range(arity)), om, est, vertices=verts)
+        scale = 1.0
+        if fam == "scaledrelpos":
+            scale = P.positive("s")
+            e.scale = scale
         if fam == "relpose" and kind == "SE2":
             # stay away from the wrap of the relative angle (the error function is discontinuous there by definition)
             rel = verts[1].pose - verts[0].pose
@@ -137,7 +163,8 @@ def _case(fam, kind, deep=False):
 
             D = P.derivative(f, dim)
             if regime == "exact":
-                P.check_eq("numerical_equals_derivative_%d" % k, J[k], D, deriv=True)
+                # compared in units of the error's own scale (an absolute 1e-6 is meaningless for errors in small units)
+                P.check_eq("numerical_equals_derivative_%d" % k, np.array(J[k]) / scale, np.array(D) / scale, deriv=True)
             elif not P.symbolic:
                 P.check_eq("numerical_close_to_derivative_%d" % k, J[k], D, deriv=True)
             else:
@@ -153,7 +180,9 @@ def _case(fam, kind, deep=False):
                         P.check_eq("numerical_equals_derivative_%d%s" % (k, list(idx)), J[k][idx], D[idx], deriv=True)
                         continue
                     if fam == "relpose" and k == 0 and idx[0] < npos and not deep:
-                        continue  # rotation of the reference pose acting on the lever arm: thorough tier only
+                        continue  # rotation of the reference pose acting on the lever arm: not decided (see OUTSIDE)
+                    if fam == "relpose" and kind == "SE3":
+                        continue  # rotational increments of SE(3) relative poses (sqrt(1 - eps^2) x 3 spheres): not decided
                     diff = J[k][idx] - D[idx]
                     P.check("truncation_bound_%d%s" % (k, list(idx)), P.both(diff <= K, diff >= -K))
         # contributions of the n-ary edge
@@ -174,9 +203,9 @@ def _case(fam, kind, deep=False):
 
 def cases(tier):
     out = []
-    for fam in ("relpos", "prior", "midpoint", "range2", "relpose"):
+    for fam in ("relpos", "prior", "midpoint", "range2", "relpose", "scaledrelpos", "aliasprior"):
         for kind in POSE_KINDS:
-            if fam == "relpose" and kind == "SE3" and tier == "quick":
+            if fam == "aliasprior" and kind not in ("R2", "R3"):
                 continue
             heavy = fam in ("range2", "relpose")
             out.append(Case("%s-%s" % (fam, kind), _case(fam, kind, deep=False), timeout=30 if tier == "quick" else 300, old_timeout=60 if tier == "quick" else 300, validate=2, shards=4 if heavy and kind in ("SE2", "SE3") else 1, val_tol=1e-3, feas_timeout_ms=1500))
